@@ -33,7 +33,9 @@ Init == \E n \in MinMods..MaxMods : \E E \in SUBSET AllEdges(n) :
 Next == UNCHANGED pr
 
 -----------------------------------------------------------------------------
-MName(k) == "m" \o ToString(k)
+(* the second module's name ends with the third module's name (`xm3` / `m3`): a cache or a table keyed by a suffix or a   *)
+(* prefix of the path confuses them                                                                                       *)
+MName(k) == IF k = 2 THEN "xm3" ELSE "m" \o ToString(k)
 TName(k) == "T" \o ToString(k)
 (* every module exports a type alias; a "bare" module exports nothing else *)
 TypeExport(k) == [k |-> "alias", n |-> TName(k), ty |-> "int", export |-> TRUE]
